@@ -77,8 +77,19 @@ func getAll(r asset.Repository, name string) ([]*asset.Snapshot, bool) {
 // fault: 0 none; 1 = source GetSince of asset 0 fails; 2 = target Append of asset 0 fails;
 // workers = number of workers.
 func H_C12(nAssets, ns, tmask, explicit, fault, workers int) {
+	c12core(0, nAssets, ns, tmask, explicit, fault, workers)
+}
+
+// H_C12_Target: the same with another kind of target repository (1 = file system over
+// the file-table model of the CSV layer, 2 = SQL over the table model): the errors a
+// target reports for an asset it does not hold differ between the implementations.
+func H_C12_Target(tkind, nAssets, ns, tmask, explicit int) {
+	c12core(tkind, nAssets, ns, tmask, explicit, 0, 1)
+}
+
+func c12core(tkind, nAssets, ns, tmask, explicit, fault, workers int) {
 	names := []string{"a0", "a1", "a2"}[:nAssets]
-	source, target := asset.NewInMemoryRepository(), asset.NewInMemoryRepository()
+	var source, target asset.Repository = asset.NewInMemoryRepository(), newRepo(tkind)
 	src := map[string][]*asset.Snapshot{}
 	before := map[string][]*asset.Snapshot{}
 	for j, name := range names {
@@ -116,13 +127,23 @@ func H_C12(nAssets, ns, tmask, explicit, fault, workers int) {
 	case 2:
 		tgtRepo = &faultyRepo{Repository: target, failAppend: map[string]bool{"a0": true}}
 	}
+	// with an implicit asset list the assets are those the target lists beforehand (a
+	// repository need not list a name that holds no snapshots: C10)
+	listed := map[string]bool{}
+	if explicit == 0 {
+		as, aerr := target.Assets()
+		vrt.Assert("assets_ok", aerr == nil)
+		for _, a := range as {
+			listed[a] = true
+		}
+	}
 	err := s.Run(srcRepo, tgtRepo, vrt.Day(def))
 	vrt.Assert("error_iff_fault", (err != nil) == (fault != 0))
 	for _, name := range names {
 		prev := before[name]
 		var want []*asset.Snapshot
 		want = append(want, prev...)
-		failed := fault != 0 && name == "a0"
+		failed := fault != 0 && name == "a0" || explicit == 0 && !listed[name]
 		if !failed {
 			for _, x := range src[name] {
 				if len(prev) > 0 {
